@@ -68,6 +68,8 @@ GROUPS = {
     ("src/arch/all/twoway.rs", r"impl FinderRev \{", "FinderRev", ["new"])],
   "PackedPairNew": [
     ("src/arch/generic/packedpair.rs", r"impl<V: Vector> Finder<V> \{", "PPFinder", ["new"])],
+  "Pre": [
+    ("src/memmem/searcher.rs", r"impl<'a> Pre<'a> \{", "Pre", ["find", "is_effective"])],
   "TopLevel": [
     ("src/memmem/mod.rs", None, "memmem", ["find", "rfind"])],
   "SearcherRev": [
@@ -92,6 +94,7 @@ VIEWS = {
 VIEWS["PPFinder"] = ("src/arch/generic/packedpair.rs",
                      [("pair", "Pair"), ("v1", "u8"), ("v2", "u8"), ("min_haystack_len", "usize")], {},
                      ["pair", "v1", "v2", "min_haystack_len"])
+VIEWS["Pre"] = ("src/memmem/searcher.rs", [("prestate", "PrefilterState")], {}, ["prestate", "prestrat"])
 VIEW_STRUCT_NAME = {"PPFinder": "Finder"}      # the Rust name of a view whose Coq name differs
 STRUCT_ALIAS = {"PackedPairNew": {"Finder": "PPFinder"}}
 # Oracles: calls of code that is NOT translated (the searchers themselves) become function parameters of the
@@ -109,6 +112,7 @@ ORACLES = {
     ("memmem", "rfind"): {
         "rabinkarp::FinderRev::new().rfind": ("o_rk_rfind", [("recv",), 0], "Option<usize>", "CodeRabinKarp.FinderRev -> list N -> option N"),
         "FinderRev::new().rfind": ("o_finder_rfind", [("inner", 0), 0], "Option<usize>", "list N -> list N -> option N")},
+    ("Pre", "find"): {"self.prestrat.find": ("o_prefilter", [0], "Option<usize>", "list N -> option N")},
     ("SearcherRev", "rfind"): {
         "crate::memrchr": ("o_memrchr", [0, 1], "Option<usize>", "N -> list N -> option N"),
         "self.rabinkarp.rfind": ("o_rk_rfind", [0], "Option<usize>", "list N -> option N"),
@@ -128,13 +132,14 @@ STRUCTS = {
     "IterNext": {},
     "SearcherRev": {"SearcherRev": "src/memmem/searcher.rs"},
     "TopLevel": {},
+    "Pre": {},
     "PackedPairNew": {},
     "Shift": {},
     "Suffix": {"Suffix": "src/arch/all/twoway.rs"},
     "TwoWayNew": {"TwoWay": "src/arch/all/twoway.rs", "Finder": "src/arch/all/twoway.rs", "FinderRev": "src/arch/all/twoway.rs"},
 }
 # a group may call the functions and use the types of other groups (their Code<G>.v is imported, not repeated)
-GROUP_IMPORTS = {"TwoWayNew": ["ByteSet", "Suffix", "Shift"], "PackedPairNew": ["Pair"]}
+GROUP_IMPORTS = {"TwoWayNew": ["ByteSet", "Suffix", "Shift"], "PackedPairNew": ["Pair"], "Pre": ["Prefilter"]}
 # Types and functions of OTHER modules used with their module path (two modules define a `FinderRev`): the generated
 # file `Require`s the other group's file without importing it and uses qualified names.
 # group -> (required groups, {rust type path: Coq type}, {rust call path: (Coq function, takes fuel, param types, result type)})
@@ -159,7 +164,8 @@ VECTOR_PARAM = "V"
 ENUMS = {"Shift": {"Shift": "src/arch/all/twoway.rs"},
          "SearcherRev": {"SearcherRevKind": "src/memmem/searcher.rs"},
          "Suffix": {"SuffixKind": "src/arch/all/twoway.rs", "SuffixOrdering": "src/arch/all/twoway.rs"}}
-VIEW_GROUPS = {"IterHint": ["FindIter", "Iter"], "IterNext": ["FindIter", "FindRevIter"], "PackedPairNew": ["PPFinder"]}
+VIEW_GROUPS = {"IterHint": ["FindIter", "Iter"], "IterNext": ["FindIter", "FindRevIter"], "PackedPairNew": ["PPFinder"],
+               "Pre": ["Pre"]}
 # type hints for locals whose type Rust infers backwards
 LOCAL_HINTS = {("ApproximateByteSet", "new", "bits"): "u64",
                ("Pair", "with_ranker", "index1"): "u8", ("Pair", "with_ranker", "index2"): "u8",
@@ -1001,6 +1007,10 @@ class Tr:
             if p.ty == "&[u8]" and name == "split_at" and len(args) == 1:
                 ra = self.expr(args[0], env, "usize")
                 return self.bind(ra, lambda pa: R(f"(split_at_chk {p.text} {pa.text})", False, "(&[u8],&[u8])"))
+            if p.ty.startswith("Option<") and name == "unwrap_or" and len(args) == 1:
+                inner = p.ty[7:-1]
+                ra = self.expr(args[0], env, inner)
+                return self.bind(ra, lambda pa: R(f"(match {p.text} with Some v_ => v_ | None => {pa.text} end)", True, inner))
             if p.ty in INT_BITS or p.ty == "?":
                 if p.ty == "?":
                     raise TieBroken(f"{w}: method {name} on an untyped literal")
@@ -1345,6 +1355,9 @@ class Tr:
                 return self.match_stmt(s[1], env, k)
             if self.in_loop:
                 raise TieBroken(f"{w}: a value at the end of a loop body")
+            mc = self.mut_call(s[1], env, lambda pv, env2: self.finish(pv, env2))
+            if mc is not None:
+                return mc
             r = self.expr(s[1], env, self.fn["ret"])
             return self.bind(r, lambda p: self.tailval(p, env, k))
         if s[0] == "assert":
@@ -1559,6 +1572,35 @@ class Tr:
         call = f"({lname} " + " ".join(b[0] for _, b in others) + " fuel " + " ".join(self.lookup(env, n)[0] for n in carried) + ")"
         pat = "'(" + ", ".join(outs) + ")" if len(outs) > 1 else outs[0]
         return R(f"({res} <-- {call};;\n  let {pat} := {res} in\n  {r2.mon()})", False, "ret")
+
+    def mut_call(self, e, env, k):
+        """place.method(args) where method takes &mut self and returns a value: k(value R, env with the place updated)"""
+        w = self.what
+        pl = self.place(e[1], env) if e[0] == "mcall" else None
+        if not pl:
+            return None
+        root, fields = pl
+        cur = self.lookup(env, root)
+        pty = self.place_type(cur[1], fields)
+        sig = self.fnsigs.get((pty, e[2]))
+        if not (sig and sig["selfmode"] == "mut"):
+            return None
+        ras = [self.expr(a, env, pt) for a, (_, pt) in zip(e[3], sig["params"])]
+        if len(ras) != len(sig["params"]):
+            raise TieBroken(f"{w}: arity of {e[2]}")
+        rplace = self.expr(e[1], env)
+        if not rplace.simple:
+            raise TieBroken(f"{w}: complex receiver")
+        def f(pas):
+            rv = self.fresh("rv")
+            v = self.fresh(root)
+            env2 = {k_: list(x) for k_, x in env.items()}
+            env2[root] = env2[root][:-1] + [(v, cur[1])]
+            r2 = k(R(f"(fst {rv})", True, sig["ret"]), env2)
+            call = f"(rs_{pty}_{e[2]} {rplace.text}" + "".join(" " + a.text for a in pas) + ")"
+            upd = self.place_update(cur[0], cur[1], fields, f"(snd {rv})")
+            return R(f"({rv} <-- {call};;\n  let {v} := {upd} in\n  {r2.mon()})", False, "ret")
+        return self.bind_all(ras, f)
 
     def tailval(self, p, env, k):
         # the value of the function body's tail expression
